@@ -48,19 +48,20 @@ pub struct RHistory {
 pub const LOW_ALIGN: [usize; 14] = [0, 1, 5, 11, 24, 12, 30, 23, 2, 14, 13, 14, 13, 24];
 
 /// Menu of profile 4: big values (records well above 1 KB).
-pub const BIG: [usize; 12] = [35, 31, 33, 21, 17, 36, 3, 2, 35, 36, 35, 26];
+pub const BIG: [usize; 14] = [35, 31, 33, 21, 17, 36, 3, 2, 35, 36, 35, 26, 42, 42];
 
 pub const NAME_POOL: [&str; 12] =
     ["alpha", "beta", "gamma", "delta", "eps", "zeta", "count2", "is_ok", "the_value", "x_1", "kappa_mu", "n0"];
 
 /// Weighted menu: tokens and owned types are over-represented.
-pub const WEIGHTED: [usize; 76] = [
+pub const WEIGHTED: [usize; 78] = [
     0, 1, 2, 3, 4, 5, 6, 7, 8, 9, 10, 11, 12, 13, 14, 15, 16, 17, 18, 19, 20, 21, 22, 23, 24, 25, 26, 27, 28, 29, 30, // once each
     22, 23, 24, 25, 26, 27, 28, 22, 24, 26, 28, // tokens
     17, 18, 19, 20, 21, 17, // owned
     12, 13, 14, 5, 8, 2, 3, 0, // zero-size, odd sizes, integers
     31, 32, 33, 31, 32, 31, 32, 33, // large token, vector of tokens, large plain data
     34, 35, 34, // cache-line alignment, 320 bytes
+    42, 42,
     36, 37, 37, 38, 39, 40, 40, 41, 41, // 1.3 KB token, floats, fn pointer, raw pointer, boxed closure, std-like user path
 ];
 
